@@ -94,6 +94,10 @@ def _safe_default(e):
     return False
 
 
+def _has_call(e):
+    return any(isinstance(n, (ast.Call, ast.Await, ast.Yield, ast.YieldFrom)) for n in ast.walk(e))
+
+
 def _shape_key(e):
     """structure of an expression with identifiers blanked (so that a renaming cannot change an ordering)"""
     e = copy.deepcopy(e)
@@ -165,7 +169,7 @@ class ExprCanon(ast.NodeTransformer):
         # neither side constant: the operands of a symmetric / mirrored comparison in text order
         op = node.ops[0]
         l, r = node.left, node.comparators[0]
-        if not _is_const(l) and not _is_const(r):
+        if not _is_const(l) and not _is_const(r) and not (_has_call(l) and _has_call(r)):
             if isinstance(op, (ast.Gt, ast.GtE)):
                 node = _loc(ast.Compare(left=r, ops=[_FLIP[type(op)]()], comparators=[l]), node)
             elif isinstance(op, (ast.Eq, ast.NotEq)) and _shape_key(l) > _shape_key(r):
@@ -320,8 +324,9 @@ class ExprCanon(ast.NodeTransformer):
             gen = ast.comprehension(target=_loc(ast.Name(id=var, ctx=ast.Store()), node), iter=node.args[1], ifs=[], is_async=0)
             return _loc(ast.GeneratorExp(elt=call, generators=[gen]), node)
         # F([... for ...]) -> F(... for ...) for consumers of any iterable
-        consumer = (isinstance(f0, ast.Name) and f0.id in ("set", "list", "tuple", "sorted", "any", "all", "sum", "dict", "frozenset", "max", "min")) or (isinstance(f0, ast.Attribute) and f0.attr == "join")
-        if consumer and len(node.args) == 1 and not node.keywords and isinstance(node.args[0], ast.ListComp):
+        consumer = (isinstance(f0, ast.Name) and f0.id in ("set", "list", "tuple", "sorted", "sum", "dict", "frozenset", "max", "min")) or (isinstance(f0, ast.Attribute) and f0.attr == "join")
+        lazy_ok = isinstance(f0, ast.Name) and f0.id in ("any", "all") and len(node.args) == 1 and isinstance(node.args[0], ast.ListComp) and not _has_call(node.args[0].elt)
+        if (consumer or lazy_ok) and len(node.args) == 1 and not node.keywords and isinstance(node.args[0], ast.ListComp):
             lc = node.args[0]
             node.args = [_loc(ast.GeneratorExp(elt=lc.elt, generators=lc.generators), lc)]
         # 'literal {} {!r}'.format(a, b) -> f-string
@@ -573,10 +578,6 @@ def _mentions(node, name):
     return any(isinstance(n, ast.Name) and n.id == name for n in ast.walk(node))
 
 
-def _has_call(e):
-    return any(isinstance(n, (ast.Call, ast.Await, ast.Yield, ast.YieldFrom)) for n in ast.walk(e))
-
-
 def _loops_to_comprehensions(stmts):
     """`X = []` / `{}` / `set()` followed (possibly after statements that do not mention X) by a loop whose whole
     body appends to X (optionally under one `if`; for a dict optionally `k = E1; X[k] = E2`)
@@ -693,7 +694,7 @@ def canon_block(stmts):
         if q is not None:
             res = [q] + res[1:]
             continue
-        s = _raising_loop(s)
+        s = _raising_loop(s, res)
         if isinstance(s, ast.If) and not s.orelse and _exits(s.body) and res:
             s = _loc(ast.If(test=s.test, body=s.body, orelse=list(res)), s)
             res = [swap_if(s)]
@@ -1136,6 +1137,9 @@ def _quantifier_loop(s, res):
         return None
     if any(isinstance(n, (ast.Yield, ast.YieldFrom, ast.Await, ast.NamedExpr)) for n in ast.walk(s)):
         return None
+    tnames_ = {n.id for n in ast.walk(s.target) if isinstance(n, ast.Name)}
+    if any(_mentions(x, t) for x in res for t in tnames_):
+        return None  # the loop variable's last value is read afterwards
     found = inner.body[0].value.value
     cond = inner.test if found else ExprCanon().visit(ast.fix_missing_locations(negate(copy.deepcopy(inner.test))))
     gen = ast.comprehension(target=s.target, iter=s.iter, ifs=[], is_async=0)
@@ -1144,9 +1148,11 @@ def _quantifier_loop(s, res):
     return ast.fix_missing_locations(_loc(ast.Return(value=_simplify_bool(val)), s))
 
 
-def _raising_loop(s):
-    """`for t in it: if c: raise E` (E independent of t)  ->  `if any(c for t in it): raise E`"""
+def _raising_loop(s, res=()):
+    """`for t in it: if c: raise E` (E independent of t, t not read afterwards)  ->  `if any(c for t in it): raise E`"""
     if not (isinstance(s, ast.For) and not s.orelse and len(s.body) == 1):
+        return s
+    if any(_mentions(x, n.id) for x in res for n in ast.walk(s.target) if isinstance(n, ast.Name)):
         return s
     inner = s.body[0]
     if not (isinstance(inner, ast.If) and not inner.orelse and len(inner.body) == 1 and isinstance(inner.body[0], ast.Raise)):
